@@ -159,7 +159,7 @@ fn to_recv(b: Bytes) -> RecvItem {
     Ok(BytesMut::from(&b[..]))
 }
 
-use crate::genmods::{n_fanin as g_fanin, n_hop as g_hop, n_hop_fold as g_hop_fold, n_m2o as g_m2o, n_o2m as g_o2m, n_roundtrip as g_rt};
+use crate::genmods::{n_fanin as g_fanin, n_hop as g_hop, n_hop_count as g_hop_count, n_hop_fold as g_hop_fold, n_m2o as g_m2o, n_o2m as g_o2m, n_roundtrip as g_rt};
 
 /// A --ab--> B, output on B
 macro_rules! exec_one_hop {
@@ -188,6 +188,7 @@ macro_rules! exec_one_hop {
 }
 exec_one_hop!(x_n_hop, g_hop, n_hop_a, n_hop_b);
 exec_one_hop!(x_n_hop_fold, g_hop_fold, n_hop_fold_a, n_hop_fold_b);
+exec_one_hop!(x_n_hop_count, g_hop_count, n_hop_count_a, n_hop_count_b);
 
 /// A --ab--> B --ba--> A, output on A
 pub fn x_n_roundtrip(plan: &Plan, net: &mut dyn NetSched) -> Exec {
